@@ -35,6 +35,7 @@ func c07(c *Ctx) {
 	sConfigCodec(c, "R8/S-CFGCODEC")
 	c07R9(c, "R9")
 	sCommitCoversConfig(c, "R10/S-COMMITCFG")
+	c07R11(c, "R11")
 	sState(c, "R7/S-STATE")
 }
 
@@ -597,5 +598,68 @@ func c07R9(c *Ctx, rule string) {
 	}
 	if n == 0 {
 		c.Bad(rule, "leaderLoop:marks-committed", c.P.Pos(fn.Pos()), "the commit arm calls setCommittedConfiguration", "no call")
+	}
+}
+
+
+// c07R11: the public membership API builds the request the caller asked for:
+// each wrapper sets its own command constant, the caller's server ID (and
+// address) and the caller's prevIndex, and hands the request to
+// requestConfigChange, which queues exactly that request on
+// configurationChangeCh. (AddNonvoter building an AddVoter request would make
+// a "non-voter" count towards quorum.)
+func c07R11(c *Ctx, rule string) {
+	type w struct {
+		fn, cmd       string
+		id, addr, prv string
+	}
+	for _, x := range []w{
+		{"(*Raft).AddVoter", "AddVoter", "p1", "p2", "p3"},
+		{"(*Raft).AddNonvoter", "AddNonvoter", "p1", "p2", "p3"},
+		{"(*Raft).RemoveServer", "RemoveServer", "p1", "", "p2"},
+		{"(*Raft).DemoteVoter", "DemoteVoter", "p1", "", "p2"},
+	} {
+		fn := c.Fn(rule, x.fn)
+		if fn == nil {
+			continue
+		}
+		got := map[string]string{}
+		for _, f := range []string{"command", "serverID", "serverAddress", "prevIndex"} {
+			fld := c.P.LookupField("configurationChangeRequest", f)
+			if fld == nil {
+				c.Bad(rule, "anchor:configurationChangeRequest."+f, "-", "field exists", "not found")
+				continue
+			}
+			for _, ws := range c.P.FieldWritesIn(fn, fld) {
+				v, _ := c.P.StoredValue(ws.Instr, fld)
+				got[f] = c.P.D(v)
+			}
+		}
+		ok := got["command"] == x.cmd && got["serverID"] == x.id && got["prevIndex"] == x.prv && got["serverAddress"] == x.addr
+		handed := false
+		for _, s := range c.P.CallsIn(fn, engine.Is("(*Raft).requestConfigChange")) {
+			handed = strings.HasPrefix(c.P.Arg(s.Instr, 0), "new(configurationChangeRequest)")
+		}
+		c.Check(rule, x.fn+":builds-its-own-request", c.P.Pos(fn.Pos()), "the request carries this API's command, the caller's server and prevIndex, and is handed to requestConfigChange", ok && handed, fmt.Sprintf("command=%s serverID=%s serverAddress=%s prevIndex=%s", got["command"], got["serverID"], got["serverAddress"], got["prevIndex"]), 1)
+	}
+	if fn := c.Fn(rule, "(*Raft).requestConfigChange"); fn != nil {
+		okReq := false
+		if f := c.P.LookupField("configurationChangeFuture", "req"); f != nil {
+			for _, ws := range c.P.FieldWritesIn(fn, f) {
+				v, _ := c.P.StoredValue(ws.Instr, f)
+				okReq = c.P.D(v) == "p1"
+			}
+		}
+		okSend := false
+		engine.EachInstr(fn, func(in ssa.Instruction) {
+			if sel, ok := in.(*ssa.Select); ok {
+				for _, st := range sel.States {
+					if st.Dir == types.SendOnly && c.P.D(st.Chan) == "recv.configurationChangeCh" && strings.HasPrefix(c.P.D(st.Send), "new(configurationChangeFuture)") {
+						okSend = true
+					}
+				}
+			}
+		})
+		c.Check(rule, "requestConfigChange:queues-the-request", c.P.Pos(fn.Pos()), "the future queued on configurationChangeCh carries the request passed in", okReq && okSend, fmt.Sprintf("req=p1: %v, queued: %v", okReq, okSend), 1)
 	}
 }
